@@ -43,16 +43,18 @@ CONFIGS = {
     "std": ["--no-default-features", "--features", "cfg-std"],
     "alloc": ["--no-default-features", "--features", "cfg-alloc"],
     "nostd": ["--no-default-features", "--features", "cfg-nostd"],
+    # std once more without debug assertions / overflow checks (cargo profile `rel`)
+    "stdrel": ["--no-default-features", "--features", "cfg-std"],
 }
 
-ALL3 = ["std", "alloc", "nostd"]
+ALL3 = ["std", "alloc", "nostd", "stdrel"]
 PROP_CONFIGS = {
     "C01": ALL3, "C02": ALL3, "C03": ALL3, "C04": ALL3, "C05": ALL3, "C06": ALL3,
     "C07": ALL3, "C08": ALL3, "C09": ALL3, "C10": ALL3, "C17": ALL3, "C19": ALL3,
     "C20": ALL3,
-    "C11": ["std", "alloc"], "C12": ["std", "alloc"], "C13": ["std", "alloc"],
+    "C11": ["std", "alloc", "stdrel"], "C12": ["std", "alloc", "stdrel"], "C13": ["std", "alloc"],
     "C14": ["std", "alloc"], "C15": ["std", "alloc"],
-    "C16": ["std"],
+    "C16": ["std", "stdrel"],
     "C18": ["std", "alloc"],
 }
 
@@ -93,7 +95,7 @@ def target_dir(b):
 
 def binary(b):
     cfg, co = split(b)
-    return os.path.join(target_dir(b), "co" if co else "debug", "fcv")
+    return os.path.join(target_dir(b), "co" if co else ("rel" if cfg == "stdrel" else "debug"), "fcv")
 
 
 def builds_for(prop):
@@ -101,7 +103,7 @@ def builds_for(prop):
     if prop in ("C13", "C14", "C15"):
         return [c + "+co" for c in cfgs]
     if prop in ("C02", "C03"):
-        return list(cfgs) + [c + "+co" for c in cfgs if c != "nostd"]
+        return list(cfgs) + [c + "+co" for c in cfgs if c not in ("nostd", "stdrel")]
     return list(cfgs)
 
 
@@ -113,6 +115,8 @@ def build(b, quiet=True):
     if not os.path.exists(lock):
         subprocess.run(["cp", os.path.join(REPO, "Cargo.lock"), lock], check=False)
     flags = list(CONFIGS[cfg])
+    if cfg == "stdrel":
+        flags = ["--profile", "rel"] + flags
     if co:
         flags[-1] = flags[-1] + ",with-co"
         flags = ["--profile", "co"] + flags
@@ -431,7 +435,7 @@ def miri_supplement(prop, seed):
 
 def cfg_label(b):
     cfg, _ = split(b)
-    return {"nostd": "no_std"}.get(cfg, cfg)
+    return {"nostd": "no_std", "stdrel": "std-release"}.get(cfg, cfg)
 
 
 def crash_replay(prop, cfg):
@@ -482,7 +486,7 @@ def replay(prop, path):
             return 1
         return 2
     cfg = meta.get("config", "std")
-    cfg = {"no_std": "nostd"}.get(cfg, cfg)
+    cfg = {"no_std": "nostd", "std-release": "stdrel"}.get(cfg, cfg)
     if meta.get("engine") == "co" or (meta.get("engine") == "regress" and prop in ("C13", "C14", "C15")):
         cfg += "+co"
     ok, log = build(cfg)
@@ -499,7 +503,7 @@ def replay(prop, path):
 
 def setup():
     rc = 0
-    for cfg in ["std", "alloc", "nostd", "std+co", "alloc+co"]:
+    for cfg in ["std", "alloc", "nostd", "stdrel", "std+co", "alloc+co"]:
         t0 = time.time()
         ok, log = build(cfg, quiet=False)
         print("setup: harness[%s] %s in %.0fs" % (cfg, "built" if ok else "FAILED", time.time() - t0))
